@@ -1,3 +1,88 @@
-From Regal Require Import Model.Lsp.
-Theorem c15_placeholder : True. Proof. exact I. Qed.
-Print Assumptions c15_placeholder.
+(* C15 — language-server diagnostics converge to a from-scratch workspace lint (PARTIAL claim).
+   Model: Model/Lsp.v (job-atomic steps of handlers / file-lint job / dispatcher / workspace run; the
+   linter is a set of oracles constrained by [linter_ok]).  Real interleavings are sampled by the
+   harness, not proved. *)
+From Coq Require Import List NArith Bool Permutation.
+From Regal Require Import Model.Lsp Proofs.Lsp.
+Import ListNotations.
+Open Scope N_scope.
+
+(* The full statement — for every linter, initial workspace, event history and job-atomic schedule,
+   at quiescence the diagnostics last published for every URI are those of a fresh lint — is
+   [converges_statement current atomic_label].  It is FALSE of the current code: *)
+Theorem converges_job_atomic_refuted : ~ converges_statement current atomic_label.
+Proof. exact refuted_parse_failure. Qed.
+Print Assumptions converges_job_atomic_refuted.
+
+(* Four independent witnesses (on the concrete linter [w_*] of Model/Lsp.v) diverge under the model of
+   the current code, and each stops diverging when exactly one modelled defect is repaired:
+   last good module kept after a parse failure; aggregate-only lint with a single module; diagnostics of
+   a rule disabled while the file was unparseable; no publish when no file parses. *)
+Theorem converges_refutation_witnesses :
+  (wdiv current wit_parse_failure = true /\ wdiv (Build_fixes true true true false false false) wit_parse_failure = false) /\
+  (wdiv current wit_single_module = true /\ wdiv (Build_fixes true true false false true false) wit_single_module = false) /\
+  (wdiv current wit_disabled_rule = true /\ wdiv (Build_fixes true true false true false false) wit_disabled_rule = false) /\
+  (wdiv current wit_no_modules = true /\ wdiv (Build_fixes true true false false false true) wit_no_modules = false).
+Proof. exact witnesses_all. Qed.
+Print Assumptions converges_refutation_witnesses.
+
+(* The strongest restriction proved: histories that never introduce an unparseable document
+   ([parse_ok_init], [parse_ok_label]; any edits, creates, deletes, renames and config changes, any
+   job-atomic schedule incl. the rate limiter dropping jobs), ending with a number of modules other
+   than one.  Then every URI's last published diagnostics are a permutation of the fresh lint, and
+   deleted / renamed-away URIs have none. *)
+Theorem converges_job_atomic_partial :
+  forall (U : list uri) parses perr fdiags areport nonagg agg,
+    linter_ok parses perr fdiags areport nonagg agg ->
+    forall (f : fmap content) (k : cfg) (ls : list label) (s : state),
+      parse_ok_init U parses f ->
+      Forall (parse_ok_label U parses) ls ->
+      run U parses perr fdiags areport nonagg agg current ls (init_state parses f k) = Some s ->
+      quiescent s ->
+      count_modules U s <> 1%nat ->
+      (forall u, Permutation (pub s u) (fresh U parses perr fdiags areport (contents s) (conf s) u)) /\
+      (forall u, contents s u = None -> pub s u = []).
+Proof. exact converges_job_atomic_partial_closed. Qed.
+Print Assumptions converges_job_atomic_partial.
+
+(* non-vacuity: a history (edit, rename, config change, edit, delete) on the concrete linter that meets
+   the hypotheses and ends quiescent with two modules *)
+Example converges_partial_nonvacuous :
+  linter_ok w_parses w_perr w_fd w_ar w_nonagg w_agg /\
+  Forall (parse_ok_label wU w_parses) ex_history /\
+  match w_run current [(0, 0); (1, 1)] ex_history with
+  | Some s => quiescentb s = true /\ count_modules wU s = 2%nat /\ pub s 0 = [] /\ conf s = 2
+  | None => False
+  end.
+Proof. exact (conj w_linter_ok ex_history_ok). Qed.
+
+(* Regression theorems for the two repaired defects: the pinned behaviour ([pinned]: didDeleteFiles
+   queues no lint; the lint after a config change keeps the cached aggregates) is refuted by a witness
+   that converges under the current behaviour. *)
+Theorem converges_pinned_refuted_delete : ~ converges_statement pinned atomic_label /\ wdiv current wit_delete = false.
+Proof. exact pinned_refuted_delete. Qed.
+Print Assumptions converges_pinned_refuted_delete.
+
+Theorem converges_pinned_refuted_config : ~ converges_statement pinned atomic_label /\ wdiv current wit_config = false.
+Proof. exact pinned_refuted_config. Qed.
+Print Assumptions converges_pinned_refuted_config.
+
+(* Fine-grained schedules: with the file-lint job split in its two halves ([LFileBegin]/[LFileEnd]) a
+   delete handled in between makes even parse-failure-free histories with several modules diverge. *)
+Theorem converges_fine_refuted : ~ converges_statement current any_label.
+Proof. exact fine_refuted. Qed.
+Print Assumptions converges_fine_refuted.
+
+(* SetFileDiagnosticsForRules: updates for disjoint rule sets commute (up to order) *)
+Theorem set_for_rules_merge :
+  forall (R1 R2 : list rule) (cur n1 n2 : list diag),
+    (forall r, mem r R1 = true -> mem r R2 = false) ->
+    (forall d, In d n1 -> mem (code d) R1 = true) ->
+    (forall d, In d n2 -> mem (code d) R2 = true) ->
+    Permutation (merge_rules R2 (merge_rules R1 cur n1) n2) (merge_rules R1 (merge_rules R2 cur n2) n1).
+Proof. exact set_for_rules_merge_lemma. Qed.
+Print Assumptions set_for_rules_merge.
+
+Example set_for_rules_merge_nonvacuous :
+  merge_rules [2] (merge_rules [1] [(1, 5); (2, 6); (3, 7)] [(1, 8)]) [(2, 9)] = [(3, 7); (1, 8); (2, 9)].
+Proof. reflexivity. Qed.
